@@ -4,6 +4,8 @@ package orda
 // lock-step with a plain JSON tree.
 
 import (
+	"encoding/json"
+
 	"github.com/orda-io/orda/client/pkg/model"
 	"github.com/orda-io/orda/client/pkg/vf"
 )
@@ -18,7 +20,11 @@ func vfNewPlainDoc() *document {
 // slice / nil map: the library may treat it as an empty container or refuse it
 // as null, but it must do one of the two consistently) and the reference value.
 func c03Value(tag string) (val interface{}, class int, ref interface{}) {
-	switch vf.Choice(tag, 8) {
+	switch vf.Choice(tag, 10) {
+	case 8:
+		return json.Number("42"), 1, 42.0 // a number decoded with UseNumber() is a number
+	case 9:
+		return json.Number("2.5"), 1, 2.5
 	case 0:
 		return nil, 0, nil // null value: invalid
 	case 5:
